@@ -37,9 +37,13 @@ structure Wheel where
   wheel : List (List (List Nat)) := nBuckets.map (fun b => List.replicate b [])
   /-- deadline of every node ever added (on the wheel's time line) -/
   dl : List (Nat × Nat) := []
+  /-- ghost, for the C13 oracle of the driver only: the time from which the node counts as scheduled, max(deadline,
+      wheel time at Add) — a node added with a deadline already behind the wheel's clock goes to the current tick -/
+  eff : List (Nat × Nat) := []
   deriving Repr, Inhabited
 
 def Wheel.deadline (w : Wheel) (n : Nat) : Nat := ((w.dl.find? (·.1 == n)).map (·.2)).getD 0
+def Wheel.effective (w : Wheel) (n : Nat) : Nat := ((w.eff.find? (·.1 == n)).map (·.2)).getD 0
 
 def modifyAt {α} (l : List α) (i : Nat) (f : α → α) : List α :=
   l.zipIdx.map (fun (x, j) => if j == i then f x else x)
@@ -52,7 +56,7 @@ def Wheel.setBucket (w : Wheel) (lvl slot : Nat) (b : List Nat) : Wheel :=
 /-- Add: link the node at the tail of the bucket findBucket chooses -/
 def add (w : Wheel) (n d : Nat) : Wheel :=
   let (lvl, slot) := findBucket w.time d
-  let w := { w with dl := (n, d) :: w.dl.filter (·.1 != n) }
+  let w := { w with dl := (n, d) :: w.dl.filter (·.1 != n), eff := (n, max d w.time) :: w.eff.filter (·.1 != n) }
   w.setBucket lvl slot (w.bucket lvl slot ++ [n])
 
 /-- Delete: unlink the node wherever it is linked -/
